@@ -21,7 +21,7 @@ ENGINE = 'E1 grid'
 RULE = ('one case = (input string, validation level, entry point); inputs are distinct mutations / strings by construction '
         '(duplicates removed); non-trivial = the input is not one of the valid seed messages')
 ASSUMPTIONS = [
-    'mutations of one seed message per version; junk strings up to length 4 (5) over {M S H | ^ ~ \\ & CR 2 . 5 A}',
+    'mutations of one seed message per version; junk strings up to length 4 (5) over {M S H | ^ ~ \\ & CR 2 . 5 A blank sharp-s}',
     'accepted outcomes: a value, an HL7apyException subclass, or (STRICT only) ValueError raised for a value invalid for its datatype',
 ]
 
@@ -178,6 +178,15 @@ def mutations(v):
             ls = list(lines)
             ls[li] = rep + ls[li][3:] if rep != '' else ''
             yield 'segment-id', '\r'.join(ls)
+    # every segment name the version defines, in the place of every segment of the seed (withdrawn segments, segments with
+    # odd table rows, batch / file headers ...), and Z names that change length in upper case
+    for li in range(1, len(lines)):
+        for rep in sorted(common.libs()[v].SEGMENTS) + ['Z\xdfA', 'z\xdf1', 'Z_A', 'Z__']:
+            if len(rep) != 3:
+                continue
+            ls = list(lines)
+            ls[li] = rep + ls[li][3:]
+            yield 'segment-id-any', '\r'.join(ls)
     for li in range(len(lines) + 1):
         ls = list(lines)
         ls.insert(li, '')
@@ -191,7 +200,7 @@ def mutations(v):
     yield 'trailing-cr', s + '\r\r'
 
 
-JUNK = 'MSH|^~\\&\r2.5A'
+JUNK = 'MSH|^~\\&\r2.5A \xdf'
 
 
 def junk_strings(n):
@@ -200,8 +209,27 @@ def junk_strings(n):
             yield ''.join(t)
 
 
+def allseg_texts(v):
+    """one message per segment of the version: the segment with every leaf valued (typed literal), inside a message whose
+    structure lists it - every row of the tables goes through parse, to_er7 and validate once"""
+    from . import c01
+    from .. import tables, refmodel
+    ec = refmodel.default_ec(v)
+    ec.pop('TRUNCATION', None)
+    for seg in tables.segment_names(v):
+        if seg == 'MSH' or tables.segment_anomaly(v, seg):
+            continue
+        host = c01.host_structure(v, seg)
+        if host is None:
+            continue
+        rows = c01.usable_rows(v, seg)
+        allf = {idx: [c01.field_all_leaves(v, fr)] for idx, fr in rows}
+        yield 'all-leaves:' + seg, refmodel.enc_message([('MSH', c01.msh_fields(v, host)), (seg, allf)], ec)
+
+
 def units(tier):
     us = [('mut', v) for v in VERSIONS]
+    us += [('allseg', v) for v in VERSIONS]
     us += [('mut2', v) for v in VERSIONS]
     for v in ('2.5', '2.7', '2.8.2') if tier == 'quick' else VERSIONS:
         names = sorted(order_texts(v))
@@ -230,6 +258,14 @@ def run_unit(unit, tier):
         res.enumerated += 2
         res.nontrivial += 2
         res.dims['ordered pairs of texts'] += 1
+    elif unit[0] == 'allseg':
+        v = unit[1]
+        for tag, text in allseg_texts(v):
+            res.states += 1
+            res.enumerated += 1
+            res.nontrivial += 1
+            try_input(res, text, TOLERANT, tag)
+        res.dims['all-leaves messages'] += 1
     elif unit[0] in ('mut', 'mut2'):
         v = unit[1]
         if unit[0] == 'mut2' and 'ORU_R01' not in common.libs()[v].MESSAGES:
